@@ -1019,8 +1019,10 @@ def in_toto_record_stop(
     # FIXME: Currently there is no way to know the default GPG key's keyid and
     # so we glob for preliminary link files
     else:
+        # Escape the step name: it must be matched literally, only the keyid
+        # part is a wildcard
         unfinished_fn_glob = UNFINISHED_FILENAME_FORMAT_GLOB.format(
-            step_name=step_name, pattern="*"
+            step_name=glob.escape(step_name), pattern="*"
         )
         # The glob also matches preliminary links of other steps whose names
         # extend this step's name by a dot (e.g. 'build.x' for 'build'): only
